@@ -193,3 +193,29 @@ def exec_DV(t):
     except Exception as e:
         return [exc_token(e)]
     return observe(z)
+
+
+def exec_EXPR(t):
+    """EXPR <rounding> <overflow> <prefix expression>: leaves `L:s:n:f:code`, nodes + - * ; every leaf carries the config (r, o)."""
+    from .env import tok_frac
+    from fractions import Fraction
+    r, o = t[0], t[1]
+    toks = list(t[2:])
+
+    def build():
+        k = toks.pop(0)
+        if k in '+-*' and len(k) == 1:
+            a = build(); b = build()
+            return a + b if k == '+' else a - b if k == '-' else a * b
+        _, s, n, f, c = k.split(':')
+        return mk([int(c)], s == 's', int(n), int(f), rounding=r, overflow=o)
+    try:
+        z = build()
+        assert not toks
+    except Exception as e:
+        return [exc_token(e)]
+    cs = codes_of(z)
+    st = z.status
+    val = Fraction(cs[0]) / Fraction(2) ** z.n_frac if cs is not None else None
+    return fmt_of(z).split() + [str(cs[0]) if cs is not None else 'nonint', tok_frac(val) if val is not None else 'nan',
+                                tok_bool(st['overflow']), tok_bool(st['underflow'])]
